@@ -53,6 +53,7 @@ def compute_cache_key(
     output_name: OUTPUT_TYPE,
     kwargs: dict[str, Any],
     root_args: tuple[str, ...],
+    bound_items: tuple[tuple[str, Any], ...] = (),
 ) -> _CACHE_KEY_TYPE | None:
     """Compute the cache key for a specific output name.
 
@@ -74,6 +75,10 @@ def compute_cache_key(
         Keyword arguments to be passed to the pipeline functions.
     root_args
         The names of the pipeline function's root inputs.
+    bound_items
+        Hashable ``(name, value)`` items for the bound arguments of the function
+        and of the functions it depends on. They are fixed values that are not
+        root inputs but do determine the result, so they are appended to the key.
 
     Returns
     -------
@@ -92,7 +97,7 @@ def compute_cache_key(
         key = to_hashable(kwargs[k])
         cache_key_items.append((k, key))
 
-    return output_name, tuple(cache_key_items)
+    return output_name, (*cache_key_items, *bound_items)
 
 
 def update_cache(
